@@ -169,6 +169,8 @@ def r2(ctx):
 
 def r3_r4_r5(ctx):
     prog = ctx.prog
+    from rules import atoms
+    atoms.utxo_tiers(ctx, 'R3')
     W = {US + '::remove_inputs', US + '::insert_utxo', US + '::new', '*Deserialize*', '*__Visitor*', 'ic_btc_canister::utxo_set::init_*'}
     for fld in ('utxos', 'address_utxos', 'balances'):
         require_writers(ctx, 'R3', 'writers:UtxoSet.' + fld, US, fld, W, floor=1)
